@@ -20,6 +20,8 @@ semantics (same operations, same order, same exceptions); nothing is executed.  
                                                                    and the right-hand sides are calls-free or there is no
                                                                    dependency between them: evaluation order is kept)
 
+  STAR     [*x] -> list(x);   CHAIN   a < b < c -> a < b and b < c (shared operands plain names / constants)
+  LOCALCONST  a local bound once at the top level of a function to a literal is replaced by the literal where it is read afterwards
   CONST    a private module-level name bound once to a literal constant is replaced by the literal inside functions (see constprop)
 
 `LOKYSA_CANON=-LOOP,-SWAP` disables passes (debugging).  The count of rewrites per pass is kept in STATS.
@@ -99,6 +101,26 @@ class Canon(ast.NodeTransformer):
             if isinstance(x, ast.Compare) and len(x.ops) == 1 and type(x.ops[0]) in (ast.Eq, ast.NotEq, ast.Is, ast.IsNot, ast.In, ast.NotIn) and _plain_operands(x):
                 _hit("NOT")
                 return negate(x)
+        return node
+
+    def visit_List(self, node):
+        self.generic_visit(node)
+        if _on("STAR") and isinstance(node.ctx, ast.Load) and len(node.elts) == 1 and isinstance(node.elts[0], ast.Starred):
+            _hit("STAR")
+            return ast.copy_location(ast.Call(func=ast.copy_location(ast.Name(id="list", ctx=ast.Load()), node), args=[node.elts[0].value], keywords=[]), node)
+        return node
+
+    def visit_Compare(self, node):
+        self.generic_visit(node)
+        # CHAIN: a < b <= c  ->  a < b and b <= c   when the shared operands are plain names / constants (evaluated once or twice: same thing)
+        if _on("CHAIN") and len(node.ops) > 1 and all(isinstance(c, (ast.Name, ast.Constant)) for c in node.comparators[:-1]):
+            _hit("CHAIN")
+            parts = []
+            left = node.left
+            for op, right in zip(node.ops, node.comparators):
+                parts.append(ast.copy_location(ast.Compare(left=copy.deepcopy(left), ops=[op], comparators=[right]), node))
+                left = right
+            return ast.copy_location(ast.BoolOp(op=ast.And(), values=parts), node)
         return node
 
     def _test(self, t):
@@ -259,6 +281,8 @@ class Canon(ast.NodeTransformer):
     def visit_FunctionDef(self, node):
         self.generic_visit(node)
         self._bodies(node)
+        if _on("LOCALCONST"):
+            _local_constants(node)
         if _on("TAIL"):
             node.body = _strip_tail(node.body, ast.Return) or [ast.copy_location(ast.Pass(), node)]
         return node
@@ -286,6 +310,50 @@ class Canon(ast.NodeTransformer):
     def visit_ClassDef(self, node):
         self.generic_visit(node)
         return self._bodies(node)
+
+
+def _local_constants(fn):
+    """LOCALCONST: a local name bound exactly once, by a top-level statement of the function body, to a literal constant (number, string,
+    bytes, bool, None) and never rebound, augmented, deleted or declared global / nonlocal anywhere in the function (nested scopes
+    included) is replaced by the literal where it is read after that statement: `timeout = 30; acquire(True, timeout=timeout)` is
+    `acquire(True, timeout=30)`.  (Naming a magic number is a common clean-up; the binding statement itself is kept.)"""
+    binds = {}
+    for n in ast.walk(fn):
+        if isinstance(n, ast.Name) and isinstance(n.ctx, (ast.Store, ast.Del)):
+            binds[n.id] = binds.get(n.id, 0) + 1
+        elif isinstance(n, (ast.Global, ast.Nonlocal)):
+            for nm in n.names:
+                binds[nm] = 99
+        elif isinstance(n, ast.arg):
+            binds[n.arg] = 99
+        elif isinstance(n, (ast.FunctionDef, ast.AsyncFunctionDef, ast.ClassDef)) and n is not fn:
+            binds[n.name] = 99
+        elif isinstance(n, ast.ExceptHandler) and n.name:
+            binds[n.name] = 99
+        elif isinstance(n, (ast.Import, ast.ImportFrom)):
+            for al in n.names:
+                binds[(al.asname or al.name).split(".")[0]] = 99
+    consts = {}
+    for i, s in enumerate(fn.body):
+        if isinstance(s, ast.Assign) and len(s.targets) == 1 and isinstance(s.targets[0], ast.Name) and binds.get(s.targets[0].id) == 1 \
+                and isinstance(s.value, ast.Constant) and isinstance(s.value.value, (int, float, str, bytes, bool, type(None))):
+            consts[s.targets[0].id] = (i, s.value)
+        elif isinstance(s, ast.AnnAssign) and isinstance(s.target, ast.Name) and s.value is not None and binds.get(s.target.id) == 1 \
+                and isinstance(s.value, ast.Constant) and isinstance(s.value.value, (int, float, str, bytes, bool, type(None))):
+            consts[s.target.id] = (i, s.value)
+    if not consts:
+        return
+
+    class _Sub(ast.NodeTransformer):
+        def visit_Name(self, node):
+            if isinstance(node.ctx, ast.Load) and node.id in consts and self.idx > consts[node.id][0]:
+                _hit("LOCALCONST")
+                return ast.copy_location(copy.deepcopy(consts[node.id][1]), node)
+            return node
+    sub = _Sub()
+    for i, s in enumerate(fn.body):
+        sub.idx = i
+        fn.body[i] = sub.visit(s)
 
 
 def _walk_same_loop(s):
